@@ -902,15 +902,24 @@ class Gen:
 
     def s_unpack(self):
         r = self.r
-        ms_ = self.vars(lambda v: v.ty[0] == "mixed" and v.minlen == len(v.ty[1]))
+        ms_ = self.vars(lambda v: (v.ty[0] == "mixed" and v.minlen == len(v.ty[1])) or (v.ty[0] == "open" and v.minlen > 0))
         if not ms_:
             return self.s_decl()
         v = r.choice(ms_)
-        names = [self.fresh("x") for _ in v.ty[1]]
-        need_const = any(self.res(t)[0] in ("mixed", "open") for t in v.ty[1])    # a list literal element has a fixed shape
-        is_const = need_const or r.random() < 0.3
+        # the pattern may name fewer elements than the value has -- down to a single name, `[x] = v`
+        elem_types = list(v.ty[1]) if v.ty[0] == "mixed" else [v.ty[1]] * min(v.minlen, 3)
+        if r.random() < 0.4:
+            elem_types = elem_types[:r.randint(1, len(elem_types))]
+        names = [self.fresh("x") for _ in elem_types]
+        need_const = any(self.res(t)[0] in ("mixed", "open") for t in elem_types)    # a list literal element has a fixed shape
+        is_const = (need_const or r.random() < 0.3) and len(names) > 1      # (`const [x] = v` reads as a write to `const[x]`)
+        if need_const and not is_const:
+            return self.s_decl()
+        self.count("unpack-names:%d" % len(names))
+        if len(names) == 1:
+            self.emit("if true {}")         # a line starting with `[x]` would continue the previous line's expression as an index
         self.emit("%s[%s] = %s" % ("const " if is_const else "", ", ".join(names), v.name))
-        for n, t in zip(names, v.ty[1]):
+        for n, t in zip(names, elem_types):
             t0 = self.res(t)
             self.declare(Var(n, t, const=is_const, never_nil=t0[0] != "opt", assignable=False))
             self.observe(n, "unpack:" + t0[0], t)
